@@ -249,7 +249,7 @@ def gen_history(rng, pname, nops, front):
             ops.append(["rm", n]); present.discard(n)
         elif k < 0.96 and front == "lib":
             ops.append(["reopen"])
-        elif front == "lib" and p.get("share", 1) and not shared:
+        elif front == "lib" and not p["ea"] and not shared:      # shared block + value inodes: known finding DevCowNoEaRef, probed separately
             ops.append(["share"]); shared = True
         else:
             ops.append(["rm", rng.choice([n for n in names if n != DATA])])
